@@ -171,6 +171,7 @@ type c06case struct {
 }
 
 type c06env struct {
+	dialer *fakeDialer
 	c      *ctx
 	keys   srvKeys
 	sta    *server.State
@@ -238,7 +239,23 @@ func (e *c06env) run(k c06case, idx int) {
 	var srvRand *recReader
 	var serverErr error
 	var gotKey [32]byte
+	relayed := false
 	if k.viaDisp {
+		// if the server decides to relay the connection to the redirect address, end the handshake there
+		// (the real redirect target would answer with its own traffic; the client must then fail)
+		ev := make(chan string, 8)
+		e.dialer.ev = ev
+		stop := make(chan struct{})
+		defer close(stop)
+		go func() {
+			select {
+			case <-ev:
+				relayed = true
+				sEnd.Close()
+				cEnd.Close()
+			case <-stop:
+			}
+		}()
 		go server.VerifDispatch(sEnd, e.sta)
 	} else {
 		buf := make([]byte, 3000)
@@ -268,7 +285,7 @@ func (e *c06env) run(k c06case, idx int) {
 	if k.viaDisp {
 		active, has, key, unord, _ := server.VerifSession(e.sta, k.uid, k.sid)
 		if cr.err != nil || !active || !has {
-			fail("handshake-failed", map[string]any{"client_error": fmt.Sprint(cr.err), "active": active, "has_session": has, "through": "dispatchConnection"})
+			fail("handshake-failed", map[string]any{"client_error": fmt.Sprint(cr.err), "active": active, "has_session": has, "through": "dispatchConnection", "relayed_to_redirect_address": relayed})
 		} else {
 			if key != cr.key {
 				fail("session-key-mismatch", map[string]any{"client_key": hx(cr.key[:]), "server_key": hx(key[:]), "through": "dispatchConnection"})
@@ -398,6 +415,8 @@ func c06(c *ctx) {
 	e.cur = time.Unix(1_760_000_000, 0).Add(time.Duration(r.intn(1_000_000_000)))
 	byp := r.bytes(16)
 	e.sta = newState(e.keys, stateOpts{bypass: [][]byte{byp}, now: func() time.Time { return e.cur }})
+	e.dialer = &fakeDialer{}
+	e.sta.RedirDialer = e.dialer
 	e.tlsCfg = &tls.Config{Certificates: []tls.Certificate{selfSigned()}, SessionTicketsDisabled: true}
 
 	sids := func() []uint32 { return []uint32{0, 1, 1 << 31, 1<<32 - 1, uint32(r.next())} }
